@@ -191,6 +191,14 @@ for i in range(40):
     n = conflict_struct("ZX", 2)
     decls.append((n, "conflict"))
 declare("ZC9", ["B string", "ZCInner3b"], "conflict")
+# three and four levels of untagged embedding, fields declared in non-alphabetical order (PropertyOrder = declaration order)
+declare("ZDeepIn", ["Zeta int", "Mid string", "Alpha bool", "Beta *int8 `json:\"beta,omitempty\"`"], "plain")
+declare("ZDeepL3", ["ZDeepIn"], "plain")
+declare("ZDeepL2", ["ZDeepL3", "Yy int"], "plain")
+declare("ZDeepL1", ["Xx string", "ZDeepL2"], "plain")
+declare("ZDeep3", ["First int", "ZDeepL2", "Last int"], "plain")
+declare("ZDeep4", ["First int", "ZDeepL1", "Last int"], "plain")
+declare("ZDeep4p", ["*ZDeepL1", "Omega int", "Aa int"], "plain")
 # diamonds: one struct reached twice at the same depth, by value, by pointer and mixed (its fields cancel)
 declare("ZDI", ["X int", 'W string `json:"w"`'], "plain")
 declare("ZDLv", ["ZDI"], "plain")
